@@ -690,6 +690,9 @@ def c19_stream():
                 continue
             cases += l if len(l) <= per else [l[i] for i in sorted(rng.sample(range(len(l)), per))]
         cases += mj if len(mj) <= 3000 else [mj[i] for i in sorted(rng.sample(range(len(mj)), 3000))]
+        if w == 64:
+            mc = S.math_cases(rng, "quick")
+            cases += mc if len(mc) <= 1200 else [mc[i] for i in sorted(rng.sample(range(len(mc)), 1200))]
         cases = cases[:14900]
         dops = [c.disjoint_op() for c in cases]
         dres = run_robust(ctx, exe, [d[0] for d in dops])
